@@ -419,6 +419,74 @@ def rule_p2(ctx, F):
                 {"path": srch.render_path(v.path)[-6:]})
 
 
+def rule_p7(ctx, F):
+    """P7: the entries collected for one corpus file never reach the next file.  run_tests collects the entries of all
+    groups in one shared list; when the loop over a file's tests is exhausted and the group is a file, the list is emptied on
+    every path that goes on to the next file (writing is conditional on --update, emptying is not conditional on anything
+    else).  If emptying depended on, say, whether a filter selected a test in this file, the file's tests would be written
+    at the top of the next file that is rewritten."""
+    import rsrules
+    from rsrules import cond_text
+    fn = ctx.need_fn(F, "test::run_tests", "P7")
+    if not fn:
+        return
+    lst = fn.params[4]["name"] if len(fn.params) > 4 else "corrected_entries"
+    clears = set(pt for pt, c in fn.calls() if (c.get("fn") or "").endswith("::clear") and c.get("a") and rsrules.trace_root(fn, c["a"][0]) == lst)
+    rec = [pt for pt, c, d in calls_named(fn, "test::run_tests")]
+    loops = set()
+    for b in fn.blocks.values():
+        if rsrules.is_loop_next_switch(fn, b.id):
+            some = [e.to for e in b.succs if isinstance(e.lab, dict) and e.lab.get("name") == "Some"]
+            seen, work = set(), list(some)
+            while work:
+                x = work.pop()
+                if x in seen or x == b.id:
+                    continue
+                seen.add(x)
+                work.extend(e.to for e in fn.blocks[x].succs)
+            if any(pt[0] in seen for pt in rec):
+                loops.add(b.id)
+    if not clears or not loops:
+        ctx.bad("P7", "run_tests:list-emptied-after-each-file", "run_tests no longer empties the shared list of collected entries (clear calls: %d) or the loop over a group's children was not found" % len(clears))
+        return
+
+    class PerFile(Monitor):
+        # m = (children exhausted, the group is a file, emptied, leaving with an error)
+        def elem(self, m, pt, e, s):
+            ex, isf, clr, err = m
+            if pt in clears:
+                clr = True
+            for x in own_walk(e):
+                if x.get("k") == "call" and "from_residual" in (x.get("fn") or ""):
+                    err = True
+            return (ex, isf, clr, err)
+
+        def edge(self, m, bid, edge, cond, truth, s):
+            ex, isf, clr, err = m
+            if bid in loops and isinstance(edge.lab, dict):
+                if edge.lab.get("name") == "None":
+                    return (True, False, False, False)
+                return (False, False, False, False)
+            if cond is not None and isinstance(edge.lab, dict):
+                txt, _ = cond_text(fn, cond, True)
+                if txt.startswith("discriminant(") and "file_path" in txt and edge.lab.get("name") == "Some":
+                    isf = True
+            return (ex, isf, clr, err)
+
+        def exit(self, m, bid, s):
+            ex, isf, clr, err = m
+            if ex and isf and not clr and not err:
+                return Viol("a file's tests were all visited and run_tests returns normally without emptying the shared list")
+            return None
+    srch = Search(fn, PerFile(), budget=3000000)
+    v = srch.run((False, False, False, False))
+    if v is None:
+        ctx.ok("P7", "run_tests:list-emptied-after-each-file", "after the loop over a file's tests every normal return has emptied the list of collected entries (%d states)" % srch.states)
+    else:
+        ctx.bad("P7", "run_tests:list-emptied-after-each-file", "run_tests: %s — the entries of this file are written at the top of the next corpus file that is rewritten (tests move between files; repeated updates keep growing it)" % v.msg,
+                {"path": srch.render_path(v.path)[-8:]})
+
+
 def rule_f3(ctx, F):
     """Delimiter recognition is exact: the only characters ignored after the repeated `=`/`-` are
     line terminators.  (Ignoring more — blanks, arbitrary whitespace — turns input lines into
@@ -672,6 +740,7 @@ def run(ctx):
     rule_p4(ctx, F)
     rule_p5(ctx, F)
     rule_p6(ctx, F)
+    rule_p7(ctx, F)
     return ctx.finish(
         "Field-flow, taint and path-counting rules over rustc MIR of crates/cli/src/test.rs: each TestCorrection is built from the entry's own name/input/attributes/delimiter lengths; "
         "the writer reads every field; with --update each Example path to Ok(true) records exactly one correction; the recognised delimiter suffix must reach the entry. "
